@@ -251,13 +251,37 @@ impl C18 {
         let opts = ProgOpts { unbalanced_ret: true, fault_tail: true, indirect: true, ..Default::default() };
         let prog = proggen::gen_prog(rng, &opts);
         let with_stack = rng.below(8) != 0;
-        let mut ax = match catch(|| proggen::build(&prog, with_stack)) {
+        // one machine in six is loaded from an ELF image of the program (stripped, or with a symbol table) instead of
+        // being made by the constructor: trace and call stack start out the same way
+        let from_elf = rng.below(6) == 0;
+        let built = if from_elf {
+            let vaddr = proggen::CODE_AT - prog.entry_off;
+            let code = prog.full_code();
+            let symbols = match rng.below(3) {
+                0 => None,
+                1 => Some(vec![]),
+                _ => Some(vec![super::elfgen::Sym { name: Some(Ok("helper".into())), value: vaddr + code.len() as u64 - 1, defined: true }]),
+            };
+            let spec = super::elfgen::ElfSpec { entry: proggen::CODE_AT, segs: vec![super::elfgen::Seg { flags: 5, vaddr, memsz: code.len() as u64, data: code, paddr: vaddr, align: 0x1000 }], order: vec![0], extra: vec![], symbols };
+            let bytes = super::elfgen::write_elf(&spec);
+            catch(|| -> Result<Axecutor, String> {
+                let mut ax = Axecutor::from_binary(&bytes).map_err(|e| err_first_line(&e))?;
+                proggen::equip(&mut ax, &prog, with_stack)?;
+                Ok(ax)
+            })
+        } else {
+            catch(|| proggen::build(&prog, with_stack))
+        };
+        let mut ax = match built {
             Ok(Ok(a)) => a,
             _ => {
                 col.count("build_failed", 1);
                 return;
             }
         };
+        if from_elf {
+            col.distinct_key("machine-from-elf");
+        }
         if !with_stack {
             // a hand-made stack area without init_stack: no top-level-ret sentinel
             let _ = catch(|| ax.mem_init_zero(0x7000_0000, 0x2000));
